@@ -142,7 +142,7 @@ func (s *Solver) check(pc []string, extra ...string) string {
 		if strings.HasPrefix(p, "#def#") {
 			continue
 		}
-		s.send("(assert " + p + ")")
+		s.send("(assert " + strings.TrimPrefix(p, "#name#") + ")")
 	}
 	for _, p := range extra {
 		s.send("(assert " + p + ")")
@@ -174,12 +174,16 @@ type FinalQuery struct {
 	Kind    string // "assert" | "reach"
 	Label   string
 	PathID  int
+	Batch   []pendingAssert // kind == "batch": the assertions decided together
+	BatchPC []string
+	expand  func(a pendingAssert) (*FinalQuery, string)
 	Choices []int
 	File    string
 	Inputs  []string // terms to evaluate when sat
 	Result  string   // sat | unsat | unknown
 	Cross   string   // result of the second solver ("" = not run)
 	Values  map[string]string
+	Model   map[string]string
 	Dur     time.Duration
 	Note    string
 }
@@ -198,7 +202,7 @@ func (s *Solver) buildQuery(pc []string, extra []string, evals []string) string 
 		sb.WriteByte('\n')
 	}
 	for _, p := range pc {
-		sb.WriteString("(assert " + strings.TrimPrefix(p, "#def#") + ")\n")
+		sb.WriteString("(assert " + strings.TrimPrefix(strings.TrimPrefix(p, "#def#"), "#name#") + ")\n")
 	}
 	for _, p := range extra {
 		sb.WriteString("(assert " + p + ")\n")
@@ -304,15 +308,17 @@ func normNum(v string) string {
 }
 
 type FinalPool struct {
-	onDone  func(q *FinalQuery)
-	wg      sync.WaitGroup
-	mu      sync.Mutex
-	done    []*FinalQuery
-	capS    int
-	cross   bool
-	dir     string
-	keepAll bool
-	solverT int64 // ns
+	crossMax int // cross-check at most this many queries per (kind,label); 0 = all
+	crossN   map[string]int
+	onDone   func(q *FinalQuery)
+	wg       sync.WaitGroup
+	mu       sync.Mutex
+	done     []*FinalQuery
+	capS     int
+	cross    bool
+	dir      string
+	keepAll  bool
+	solverT  int64 // ns
 }
 
 func (p *FinalPool) submit(q *FinalQuery, text string) {
@@ -338,7 +344,21 @@ func (p *FinalPool) submit(q *FinalQuery, text string) {
 			q.Note = "solver reported (error"
 		}
 		q.Result, q.Values = v, vals
-		if p.cross && v != "unknown" {
+		doCross := p.cross && v != "unknown"
+		if doCross && p.crossMax > 0 && v == "unsat" {
+			p.mu.Lock()
+			if p.crossN == nil {
+				p.crossN = map[string]int{}
+			}
+			k := q.Kind + "|" + q.Label
+			if p.crossN[k] >= p.crossMax {
+				doCross = false
+			} else {
+				p.crossN[k]++
+			}
+			p.mu.Unlock()
+		}
+		if doCross {
 			cv, _, cerr := runZ3File(z3Cross, q.File, p.capS)
 			if cerr {
 				cv = "unknown"
@@ -351,6 +371,13 @@ func (p *FinalPool) submit(q *FinalQuery, text string) {
 		}
 		q.Dur = time.Since(t0)
 		atomic.AddInt64(&p.solverT, int64(q.Dur))
+		if q.Kind == "batch" && q.Result != "unsat" && q.expand != nil {
+			// attribute: one query per assertion of the batch
+			for _, a := range q.Batch {
+				iq, text := q.expand(a)
+				p.submit(iq, text)
+			}
+		}
 		keep := p.keepAll || q.Result == "unknown" || (q.Kind == "assert" && q.Result == "sat")
 		if !keep {
 			os.Remove(q.File)
